@@ -132,6 +132,9 @@ def gen_simple(rng, kind=None, scale=None, center_scale=None, include=None):
             v = [[c[0] + float(Fraction(rng.randint(-16, 16), 4)) * scale, c[1] + float(Fraction(rng.randint(-16, 16), 4)) * scale]
                  for _ in range(n)]
         d.update(v=v)
+        if rng.random() < 0.3:
+            # built with the `origin=` keyword: the constructor receives vertices relative to it
+            d['origin'] = [float(rng.randint(-8, 8)) / 2, float(rng.randint(-8, 8)) / 2]
     elif kind == 'regular_polygon':
         d.update(c=c, n=rng.randint(3, 9), r=rsize(rng, scale), angle=rangle(rng))
     elif kind == 'circle_annulus':
@@ -189,6 +192,10 @@ def build(d):
     if k == 'rectangle':
         return RectanglePixelRegion(P(d['c']), d['w'], d['h'], angle=A(d['angle']), meta=m)
     if k == 'polygon':
+        if 'origin' in d:
+            o = d['origin']
+            return PolygonPixelRegion(PixCoord([p[0] - o[0] for p in d['v']], [p[1] - o[1] for p in d['v']]),
+                                      origin=P(o), meta=m)
         return PolygonPixelRegion(PixCoord([p[0] for p in d['v']], [p[1] for p in d['v']]), meta=m)
     if k == 'regular_polygon':
         return RegularPolygonPixelRegion(P(d['c']), d['n'], d['r'], angle=A(d['angle']), meta=m)
@@ -228,7 +235,11 @@ def model(d, reg=None):
     elif k in ('ellipse', 'rectangle'):
         out.update(c=_pt(d['c']), w=frac(Fraction(d['w'])), h=frac(Fraction(d['h'])))
     elif k == 'polygon':
-        out.update(v=[_pt(p) for p in d['v']])
+        if 'origin' in d:
+            reg = reg or build(d)
+            out['v'] = [_pt(p) for p in zip(reg.vertices.x.tolist(), reg.vertices.y.tolist())]
+        else:
+            out.update(v=[_pt(p) for p in d['v']])
     elif k == 'regular_polygon':
         reg = reg or build(d)
         out['kind'] = 'polygon'
